@@ -4,6 +4,7 @@ import (
 	"fmt"
 	"net/http"
 	"strconv"
+	"strings"
 
 	"github.com/zitadel/logging"
 
@@ -378,7 +379,7 @@ func checkCertificate(
 		for _, keyDesc := range metadata.SPSSODescriptor.KeyDescriptor {
 			for _, spX509Data := range keyDesc.KeyInfo.X509Data {
 				for _, reqX509Data := range request.KeyInfo.X509Data {
-					if spX509Data.X509Certificate == reqX509Data.X509Certificate {
+					if equalCertificateText(spX509Data.X509Certificate, reqX509Data.X509Certificate) {
 						return nil
 					}
 				}
@@ -421,6 +422,12 @@ func GetAcsUrlAndBindingForResponse(
 	}
 
 	return acsUrl, protocolBinding
+}
+
+// equalCertificateText compares two base64 encoded certificates as they appear in X509Certificate
+// elements, where the text may be wrapped and indented (xs:base64Binary allows whitespace).
+func equalCertificateText(a, b string) bool {
+	return strings.Join(strings.Fields(a), "") == strings.Join(strings.Fields(b), "")
 }
 
 // isXSBooleanTrue reports whether value is a lexical form of the xs:boolean value true.
